@@ -454,6 +454,30 @@ def observe(recipe, backend):
                     add("C06", "length:%s" % hop, "cast changed the length %d -> %d (path %s)" % (n_in, n_out, key))
             except Exception:
                 pass
+    # C15, directly: drop one type of the inference path (with its identity descendants) from the typeset — a parent-closed
+    # sub-typeset A of B — and require that B's answer is reachable from A's answer along B's relations
+    if inf[0] == "ok" and not has_overlap:
+        import networkx as nx
+        pB = [str(t) for t in inf[1][1]]
+        gB = ts.relation_graph
+        byname = {str(q): q for q in gB.nodes}
+        for tname in pB[1:]:
+            drop = {tname}
+            changed = True
+            while changed:
+                changed = False
+                for q, pa in PARENT.items():
+                    if pa in drop and q not in drop and q in order:
+                        drop.add(q)
+                        changed = True
+            a_names = [q for q in order if q not in drop]
+            tsa = typeset_for(sorted(a_names))
+            ia = outcome(lambda: str(tsa.infer_type(x)))
+            if ia[0] == "ok" and ia[1] in byname and not nx.has_path(gB, byname[ia[1]], byname[pB[-1]]):
+                add("C15", "infer-not-reachable:%s|%s" % (min(ia[1], pB[-1]), max(ia[1], pB[-1])),
+                    "A = B minus %s infers %s; B infers %s (path %s), which is not reachable from it along B's relations"
+                    % (sorted(drop), ia[1], pB[-1], pB))
+                break
     # C11: permutations / repetition
     vals = recipe["values"]
     n = len(vals)
@@ -567,6 +591,7 @@ LIST_POOL = G.OBJ_POOL + [["none"], ["nan"], ["str", ""], ["str", "true"], ["str
                           ["str", "2020-01-01 10:00:00"], ["str", "127.0.0.1"], ["str", "http://a.b/c"], ["str", "/a/b"],
                           ["str", "a@b.c"], ["str", "POINT (1 2)"], ["str", "0b8a22ca-80ad-4df5-85ac-fa49c44b7ede"],
                           ["str", "1+2j"], ["str", "05"], ["float", 2.0], ["float", 3.0], ["complex", 2, 0], ["int", 5],
+                          ["str", "20200101"], ["str", "20210315"], ["str", "2020-01-01"], ["str", "2020-01-01T10:00:00"], ["str", "10:30:00"],
                           ["nparr"], ["pdser"], ["NaT"], ["dt", "2020-01-01T00:00:00"], ["dt", "2021-03-04T00:00:00"]]
 
 
@@ -803,6 +828,8 @@ def run_backend(tier, seed, backend, n=None, nproc=16):
                        {"values": [["dt", "2020-01-01T10:00:00"]], "stream": "corpus:fixed-F35"},
                        {"values": [["td", 5]], "stream": "corpus:fixed-F35b"},
                        {"values": [["str", "/a@b"]], "stream": "corpus:F12l"},
+                       {"values": [["str", "20200101"], ["str", "20210315"]], "stream": "corpus:compact-dates"},
+                       {"values": [["str", "2020-01-01"]], "stream": "corpus:date-only-string"},
                        {"values": [["str", ""], ["str", ""]], "stream": "corpus:empty-strings"},
                        {"values": [["str", "true"], ["str", "false"]], "stream": "corpus:fixed-F22a"}]}
     recipes = corpus.get(backend, []) + recipes
